@@ -335,6 +335,7 @@ def decide_all(obls, tier, workers=16, log=None, models=True, on_sat=None, stop_
     todo.sort(key=lambda o: (0 if o["verdict"] == "sat" else 1, rank[id(o)]))
     confirmed = [0]
     skipped = [0]
+    violated_cases = set()
 
     def do_one(o, phase):
         """phase 1: the cheap steps (abstracted identity, 3 s Float32 query, candidate counterexamples confirmed natively) for
@@ -342,7 +343,8 @@ def decide_all(obls, tier, workers=16, log=None, models=True, on_sat=None, stop_
         steps can find is therefore found before any long run starts."""
         if phase == 2 and not o.get("_open"):
             return
-        if confirmed[0] >= stop_after:
+        if confirmed[0] >= stop_after or (o["case"] in violated_cases and o["verdict"] != "sat"):
+            # after 6 confirmed violations, or once this obligation's own case has one (the case is a VIOLATION already)
             if o["verdict"] != "sat":
                 o["verdict"] = "skipped"
             skipped[0] += 1
@@ -365,6 +367,7 @@ def decide_all(obls, tier, workers=16, log=None, models=True, on_sat=None, stop_
                 o.update({"verdict": quick_fp["verdict"], "solver": quick_fp["solver"], "seconds": o.get("seconds", 0) + quick_fp["seconds"], "model": quick_fp["model"], "solver_log": quick_fp["log"]})
                 if o["verdict"] == "sat" and on_sat(o):
                     confirmed[0] += 1
+                    violated_cases.add(o["case"])
                 return
         if quick_fp is not None:
             # candidate counterexample from the real reading of a Float32 identity (confirmed natively or discarded)
@@ -386,6 +389,7 @@ def decide_all(obls, tier, workers=16, log=None, models=True, on_sat=None, stop_
                 if o.get("reproduced"):
                     if hit:
                         confirmed[0] += 1
+                        violated_cases.add(o["case"])
                     return
                 # not reproduced: forget the candidate
                 o["verdict"], o["model"] = saved
@@ -405,6 +409,7 @@ def decide_all(obls, tier, workers=16, log=None, models=True, on_sat=None, stop_
             if o.get("reproduced"):
                 if hit:
                     confirmed[0] += 1
+                    violated_cases.add(o["case"])
                 return
             o["verdict"], o["model"] = saved
             o["solver"] = None
@@ -436,6 +441,7 @@ def decide_all(obls, tier, workers=16, log=None, models=True, on_sat=None, stop_
             try:
                 if on_sat(o):
                     confirmed[0] += 1
+                    violated_cases.add(o["case"])
             except Exception as e:  # a replay problem must not hide the verdict
                 o["replay_error"] = str(e)
 
